@@ -309,7 +309,7 @@ pub fn run(ctx: &mut Ctx) {
     let n = ctx.nshards as u32;
     set_shrink_iters(100);
     ctx.more_samples(2);
-    drive(ctx, "modes", ctx.tier.pick(720, 60_000) / n, 24, 500, |ctx, b| one(ctx, b));
+    drive(ctx, "modes", ctx.tier.pick(720, 24_000) / n, 24, 500, |ctx, b| one(ctx, b));
 }
 
 pub fn replay(_section: &str, case: &Value, ctx: &mut Ctx) {
